@@ -1,6 +1,6 @@
 #!/bin/bash
 # verdicts for the third-generation sweep (tools/mutgen3.py)
-S=${1:-/tmp/sweepC.jsonl}
+S=${1:-/tmp/sweepC2.jsonl}
 T="python3 /verif/tools/triage.py $S"
 $T equivalent - "independent statements exchanged" p00006 p00021 p00065 p00066
 $T equivalent - "the manifest target is wanted again (already Done): no effect" p00026
@@ -12,3 +12,24 @@ $T equivalent - "independent statements exchanged" p00074 p00099 p00102 p00103
 $T out-of-scope - "trace output" p00081
 $T equivalent - "dependents are promoted before the finished step is recorded: their own dirty checks still run after both (same loop iteration), and an error from record_finished still aborts" p00087
 $T out-of-scope - "an I/O error (stat, log write) is ignored: filesystem error handling is not one of the properties" p00088 p00094 p00095 p00101
+$T control C07,C08 "the outcome of a read_exact in the log reader is ignored: a short read is decoded as data instead of ending the load" p00114 p00116 p00118 p00131 p00134
+$T equivalent - "independent statements exchanged" p00122 p00124 p00125 p00126 p00128 p00136 p00148 p00149 p00150 p00151 p00152 p00153 p00154 p00155 p00156 p00157 p00158 p00175 p00191 p00193 p00229 p00233 p00237 p00248
+$T out-of-scope - "signature / version of a foreign file accepted" p00132 p00135
+$T out-of-scope - "an I/O error (re-signing the log, creating builddir) is ignored" p00143 p00169
+$T equivalent - "the expected character is known to be there (peek just saw it / read_eval stops only at it): ignoring the Result changes nothing" p00178 p00180 p00258
+$T control C10,C04 "a pool header requires the newline before its name: every `pool` statement is rejected" p00188
+$T out-of-scope - "an empty identifier / variable name accepted (input outside the supported syntax)" p00227 p00242
+$T equivalent - "StackStack::push still bounds-checks (F6 unchanged)" p00259
+$T equivalent - "independent statements / declarations exchanged" p00263 p00264 p00272 p00274 p00291 p00298 p00301 p00302 p00303 p00304 p00305 p00308 p00321 p00322 p00342 p00345
+$T equivalent - "the order in which name/mtime, or the input sections, enter the manifest hash changes consistently for recording and checking" p00277 p00279 p00280
+$T out-of-scope - "an I/O / syscall error is ignored (mkdir for the rspfile, pipe, setflags, close, waitpid): resource-failure handling is not one of the properties" p00288 p00311 p00312 p00313 p00323 p00326
+$T out-of-scope - "last-line display one chunk behind / hide_progress" p00295 p00306
+$T equivalent - "cfg(feature = crlf) code; defensive panics the typestate shows unreachable" p00329 p00330 p00336 p00337 p00332 p00339
+$T out-of-scope - "Scanner::back and carriage returns (unsupported input)" p00334
+$T out-of-scope - "layout of the diagnostic (ellipsis, excerpt, caret order); file and line are still named" p00346 p00347 p00349 p00350 p00351 p00352
+$T equivalent - "independent statements exchanged (the buffer already has its final length; both happen under the display lock)" p00355 p00362 p00363 p00369 p00370
+$T out-of-scope - "a read error while loading a file is ignored (the file shrank between stat and read): filesystem error handling" p00356
+$T out-of-scope - "verbose command echo / order of text and newline in n2's own log lines" p00364 p00368
+$T equivalent - "independent statements exchanged / the manifest target wanted again" p00371 p00373 p00374 p00385 p00386 p00396 p00398 p00406
+$T out-of-scope - "status-line text, plain-console description line / hide_success, usage text, version output, trace flush order" p00372 p00378 p00390 p00391 p00403 p00404 p00405 p00407 p00409
+$T control C06,C18 "the error of want_file / want_every_file (a dependency cycle) is dropped in run::build: the build goes on with half-marked states" p00394 p00399 p00400 p00401
